@@ -6,8 +6,14 @@ import warnings
 
 import numpy as np
 
+import os
+
 import coqlit as L
 import pyobs
+
+# which binary64 implementation the IEEE oracle / model run on: '' = Coq's primitive floats (default),
+# '_spec' = the standard library's pure specification SpecFloat (VERIF_C13_FLOAT=spec; slower, closed terms)
+FSUF = '_spec' if os.environ.get('VERIF_C13_FLOAT') == 'spec' else ''
 
 KINDS = ['KMixed', 'KFloat', 'KInt']
 OPS = ['Add', 'Sub', 'Mul', 'Truediv', 'Floordiv', 'Mod', 'Pow']
@@ -15,6 +21,20 @@ PYOP = {'Add': operator.add, 'Sub': operator.sub, 'Mul': operator.mul, 'Truediv'
         'Floordiv': operator.floordiv, 'Mod': operator.mod, 'Pow': operator.pow}
 SYM = {'Add': '+', 'Sub': '-', 'Mul': '*', 'Truediv': '/', 'Floordiv': '//', 'Mod': '%', 'Pow': '**'}
 NAN = float('nan')
+
+
+INF = float('inf')
+# values on which binary64 rounding, overflow, subnormals and signed zeros are visible
+RFLOATS = [0.1, 0.2, 0.3, 1 / 3, 0.7, 1.5, 2.5, -2.5, 10.4, 1e-5, 123456.789, -0.1, 1e16, 2.0 ** 53, 2.0 ** 53 - 1,
+           2.0 ** 53 + 2, 5e-324, -5e-324, 1.5e-323, 2.2250738585072014e-308, 2.225073858507201e-308, 1e308, -1e308,
+           1.7976931348623157e308, 1e300, 1e-300, INF, -INF, NAN, 0.0, -0.0, 1.0, -1.0, 3.0, 10.0, 1e22, 4.35]
+RINTS = [1, -1, 2, 3, -3, 7, 10, 2 ** 53 - 1, 2 ** 53, 2 ** 53 + 1, -(2 ** 53 + 1), 10 ** 16 + 1, 0]
+ROPS = ['Add', 'Sub', 'Mul', 'Truediv', 'Floordiv', 'Mod']
+# Finding on the unchanged tree (reported, not decided): x / IntColumn with an int beyond 2**53 on either side.
+# NumPy's true_divide converts both int64 operands to float64 first, so -(2**53 + 1) / IntColumn([3]) holds
+# -3002399751580330 where Python's -(2**53 + 1) / 3 is -3002399751580331.0 (int: ...331).  The exact instance judges
+# such rows (the quotient is a binary64 value) and reports them; they are kept out of the default stream.
+INCLUDE_PENDING_FINDINGS = False
 
 
 def coltype(kind):
@@ -119,22 +139,41 @@ class C13:
             'full-matrix / Float-/IntColumn operands in both orders, on whole columns and on column-level slices / index '
             'lists of a longer table (mostly with as many rows as the depth, where per-row must win over per-sample). '
             'Observed: result type, row ids, cells; operands before/after; the cells read row-wise after dm.r = result. '
-            'A case whose specified result is not computed exactly by the dyadic instance (non-dyadic quotient, '
-            'non-integer exponent, zero divisor, infinities) is not judged and is counted as having left the model. '
-            'non-trivial = the result differs from the source cells; distinct by full input')
+            'Every case is judged twice inside Coq: by the exact dyadic instance (rows whose exact result is a binary64 value; '
+            'non-dyadic quotients, non-integer exponents, infinities are skipped by it) AND by the IEEE-754 binary64 instance '
+            '(Spec/ArithIeee.v on Base/Float64Py.v, Coq primitive floats under vm_compute), which judges every row of + - * / // % '
+            'with its rounding, overflow to inf, inf - inf, subnormals. A family of rounding-visible values (0.1, 0.2, 0.3, 1/3, 2**53 +- 1 '
+            'as int and float, 10**16 + 1, 5e-324, the largest double, 1e308 * 10, +-inf, nan, +-0.0; scalar / NumPy scalar / numeric text / '
+            'list / tuple / column operands, both orders, Mixed / Float / Int columns and SeriesColumns) exercises it. A row counts as '
+            'having left the model only if neither instance judges it: ** outside the exact instance, zero divisors (outside the '
+            'quantifier; a MixedColumn raising ZeroDivisionError is compared in the L1 correspondence), int64 overflow, '
+            'x / IntColumn beyond 2**53. non-trivial = the result differs from the source cells; distinct by full input')
     trusted_base = [
         'Coq 8.16.1 kernel (coqc; vm_compute for evaluating cases; no native_compute)',
         'translator /verif/translate/gen_arith.py (operator table, per-cell code of BaseColumn/NumericColumn/IntColumn._operate, '
         '_map) -> Gen/KArith.v, and gen_checktype.py -> Gen/KCheck.v',
         'Spec/Arith.v exact_op: hand-written exact model of Python/NumPy scalar arithmetic on ints and dyadics (result type, '
-        'floor semantics of // and %, IEEE pow units), exercised by the correspondence; str(float) supplied by CPython as a table',
+        'int -> float promotion, floor semantics of // and %, IEEE pow units), exercised by the correspondence; str(float) supplied by '
+        'CPython as a table',
+        'Base/Float64Py.v + Spec/ArithIeee.v: hand-written model of Python float semantics (float(int), int / int as one rounding of the '
+        'exact quotient, CPython float_divmod = NumPy npy_divmod transcribed, fmod / floor / rounding on Z) over the four basic '
+        'operations. Coq primitive floats (PrimFloat.add/sub/mul/div, of_uint63, ldshiftexp, frshiftexp, normfr_mantissa, opp, abs, '
+        'eqb, ltb, float; PrimInt63 int/lsl/lsr/lor/land/eqb -- the 19 names Print Assumptions lists for oracle_op_ieee, kernel primitives, no axiom) are TRUSTED to '
+        'implement IEEE-754 binary64 round-to-nearest-even (they are the C double operations of the machine running coqc). Cross-checks: '
+        'the standard library SpecFloat (pure Gallina) gives bit-identical results on a 51 x 51 x 6 grid (Example in Props/C13.v) and the '
+        'whole correspondence can be re-run on it (VERIF_C13_FLOAT=spec, same verdicts)',
+        'NumPy / CPython are trusted to use the platform IEEE-754 binary64 arithmetic (round to nearest even, no x87 double rounding, '
+        'no flush-to-zero) and a correctly working fmod',
         'hand-written NumPy cast models (Model/Store.v, Model/Arith.v: array promotion int64->float64, astype(int), np.array(dtype=))',
         'harness/c13.py, harness/pyobs.py, harness/coqlit.py',
     ]
     assumptions = [
-        'IEEE rounding is not modelled: only cases whose exact result is a binary64 value are judged (others counted)',
-        'divisors are non-zero, exponents small integers, no int64 overflow, no infinities in arithmetic',
-        'signed zeros are identified (comparison up to Python ==, NaN ~ NaN)',
+        'IEEE rounding of + - * / // % is modelled (binary64, round to nearest even); ** is judged only where its exact result is a '
+        'binary64 value (libm pow is not correctly rounded)',
+        'consistency of the two instances (where exact_op yields a binary64 value, ieee_op yields it too) is TESTED on the grid and on '
+        'every generated case (both verdicts are required), not proved for all inputs',
+        'zero divisors, int64 overflow, x / IntColumn with |int| > 2**53 (NumPy divides the rounded float64 views) are not judged',
+        'signed zeros are identified (comparison up to Python ==, NaN ~ NaN); everything else bit for bit',
         'fastnumbers is not installed',
         'NumPy scalars / arrays as LEFT operand are outside the claim (NumPy, not the column, handles them)',
         'operands-unchanged and "result is a new object" are observed on the Python side (pyfail), by-value model in Coq',
@@ -202,8 +241,8 @@ class C13:
                     c = self._rerun_op(inp)
             finally:
                 np.seterr(**old)
-            if c is not None:
-                # [oracle; every row of the case is judged (the exact instance computes all of it)]
+            if c is not None and not c.get('oracle_vec'):
+                # [oracle; every row of the case is judged]
                 c['oracle_vec'] = '[%s; %s]' % (c['oracle'], c.get('aux') or 'true')
             return c
 
@@ -306,13 +345,15 @@ class C13:
         args = '%s O%s %s %s %s' % (tab, op, L.boolean(refl), c_lit, o_lit)
         judge = inp.get('judge', True)
         if judge:
-            oracle = '(oracle_op %s %s)' % (args, obs_lit)
-            if assigned_lit is not None:
-                oracle = '(%s && oracle_assign %s %s %s)' % (oracle, args, assigned_lit[0], assigned_lit[1])
-            model = '(model_op %s %s)' % (args, obs_lit)
-            aux = '(judged %s)' % args
+            # both instances of the scalar arithmetic on the same literals: exact (rows it computes), IEEE binary64 (every row)
+            asg = 'None' if assigned_lit is None else '(Some (%s, %s))' % assigned_lit
+            oracle = '(oracle_c13%s %s %s %s)' % (FSUF, args, obs_lit, asg)
+            vec = '(vec_c13%s %s %s %s)' % (FSUF, args, obs_lit, asg)
+            model = '(model_c13%s %s %s)' % (FSUF, args, obs_lit)
+            aux = '(judged_ieee %s)' % args
         else:
             oracle = 'true'
+            vec = None
             model = '(model_outcome %s %s)' % (args, obs_lit)
             aux = 'false'
         cls = set()
@@ -320,9 +361,10 @@ class C13:
             cls.add('cell:' + ('nan' if isinstance(v, float) and math.isnan(v) else type(v).__name__))
         return {
             'input': inp, 'observed': observed, 'pyfail': pyfail, 'oracle': oracle, 'model': model, 'aux': aux,
-            'nontrivial': nontrivial, 'sig': json.dumps(inp, sort_keys=True),
+            'oracle_vec': vec, 'nontrivial': nontrivial, 'sig': json.dumps(inp, sort_keys=True),
             'tags': [kind, op, 'x_o_col' if refl else 'col_o_x', 'operand:' + self._opclass(inp['operand']),
-                     'order:' + inp.get('order', ['natural'])[0], 'rows:%d' % len(cells0)] + (['derived_column'] if inp.get('pre') else []) + [
+                     'order:' + inp.get('order', ['natural'])[0], 'rows:%d' % len(cells0)] + (['derived_column'] if inp.get('pre') else []) + (
+                     ['family:' + inp['family']] if inp.get('family') else []) + [
                      'outcome:' + ('raise' if out[0] == 'exn' else 'ok')] + sorted(cls) + ([] if judge else ['malformed']),
         }
 
@@ -517,13 +559,16 @@ class C13:
         args = 'O%s %s %s %s' % (op, L.boolean(refl), c_lit, o_lit)
         return {
             'input': inp, 'observed': observed, 'pyfail': pyfail,
-            'oracle': '(oracle_series %s %s)' % (args, obs_lit), 'model': '(model_series %s %s)' % (args, obs_lit),
-            'aux': '(judged_series %s)' % args, 'nontrivial': True, 'sig': json.dumps(inp, sort_keys=True),
+            'oracle': '(oracle_series_c13%s %s %s)' % (FSUF, args, obs_lit),
+            'oracle_vec': '(vec_series_c13%s %s %s)' % (FSUF, args, obs_lit),
+            'model': '(model_series_c13%s %s %s)' % (FSUF, args, obs_lit),
+            'aux': '(judged_series_ieee %s)' % args, 'nontrivial': True, 'sig': json.dumps(inp, sort_keys=True),
             'tags': ['Series', op, 'x_o_col' if refl else 'col_o_x',
                      'operand:series_' + opd['t'] + ('_' + opd.get('as', '') if opd.get('as') else '') +
                      ('_per_row' if opd['t'] == 'vec' and len(opd['vs']) == n else '_per_sample' if opd['t'] == 'vec' else ''),
                      'series_rows_eq_depth' if n == depth else 'series_rows_ne_depth',
-                     'order:' + order[0], 'outcome:' + ('raise' if out[0] == 'exn' else 'ok')],
+                     'order:' + order[0], 'outcome:' + ('raise' if out[0] == 'exn' else 'ok')] + (
+                     ['family:' + inp['family']] if inp.get('family') else []),
         }
 
     def _series_case(self, rng, op, refl, form, order):
@@ -696,6 +741,107 @@ class C13:
             inp['judge'] = False
         return inp
 
+    # ---- values on which IEEE rounding is visible (judged by the IEEE instance; the exact one skips most) ----
+    def _rnum(self, rng, cls, divisor=False, nobig=False):
+        """cls: 'int' | 'float' | 'any'; a zero divisor is kept in ~6 % of the draws (judged by the L1 model only);
+        nobig: no finite float beyond 2^63 (a MixedColumn stores an integral float as an int: 1e308 would be a
+        309-digit int literal, which costs Coq's number parser ~0.1 s each)"""
+        while True:
+            if cls == 'int' or (cls == 'any' and rng.random() < 0.3):
+                v = rng.choice(RINTS) if rng.random() < 0.8 else rng.randint(-9, 9)
+            else:
+                v = rng.choice(RFLOATS)
+                if rng.random() < 0.15:
+                    v = v * rng.choice([3.0, 0.1, -7.0, 1e-3])
+            if divisor and v == 0 and rng.random() > 0.06:
+                continue
+            if nobig and isinstance(v, float) and 2.0 ** 63 <= abs(v) < INF:
+                continue
+            return v
+
+    def _rcells(self, rng, kind, n, divisor):
+        out = []
+        for _ in range(n):
+            c = rng.random()
+            if kind == 'KMixed' and c < 0.12:
+                out.append(rng.choice(['a', '', None, 'x y']))
+            elif kind == 'KInt':
+                out.append(self._rnum(rng, 'int', divisor))
+            else:
+                out.append(self._rnum(rng, 'any', divisor, nobig=(kind == 'KMixed')))
+        return out
+
+    def _round_case(self, rng, kind, op, refl, form, order, n):
+        cell_div = refl and op in ('Truediv', 'Floordiv', 'Mod')
+        x_div = (not refl) and op in ('Truediv', 'Floordiv', 'Mod')
+        cells = self._rcells(rng, kind, n, cell_div)
+        ordv = self._order(rng, n, order)
+        m = len(ordv[1]) if ordv[0] == 'colslice' else n
+
+        nobig = kind == 'KMixed' or form == 'col_KMixed'
+        # x / IntColumn: ints within 2**53 unless the pending finding is switched on
+        small_ints = kind == 'KInt' and op == 'Truediv' and refl and not INCLUDE_PENDING_FINDINGS
+        if small_ints:
+            cells = [c if abs(c) <= 2 ** 53 else rng.choice([3, -7, 10]) for c in cells]
+
+        def xval(cls):
+            v = self._rnum(rng, cls, x_div, nobig=nobig)
+            while small_ints and abs(v) > 2 ** 53:
+                v = self._rnum(rng, cls, x_div, nobig=nobig)
+            if kind == 'KInt' and isinstance(v, float) and (v != v or abs(v) == INF or abs(v) >= 2.0 ** 62):
+                v = 0.7                     # IntColumn refuses nan / inf operands (C05's business)
+            return v
+        if form in ('list', 'tuple'):
+            opd = {'t': 'seq', 'as': form, 'vs': [pyobs.enc(xval('any')) for _ in range(m)]}
+        elif form.startswith('col_'):
+            k2 = form[4:]
+            vs = [xval('int' if k2 == 'KInt' else 'any') for _ in range(n)]
+            if k2 == 'KInt':
+                vs = [int(v) for v in vs]
+            opd = {'t': 'col', 'kind': k2, 'cells': [pyobs.enc(v) for v in vs]}
+        else:
+            v = xval('int' if form in ('int', 'np_int64') else 'float')
+            if form == 'np_int64':
+                v = np.int64(v)
+            elif form == 'np_float64':
+                v = np.float64(v)
+            elif form == 'np_float32':
+                v = np.float32(v if abs(v) < 1e38 or v != v or abs(v) == INF else 0.1)
+            elif form == 'numeric_text':
+                v = repr(v) if (v == v and abs(v) != INF) else '0.1'
+            opd = {'t': 'scalar', 'v': pyobs.enc(v)}
+        return {'kind': kind, 'cells': [pyobs.enc(v) for v in cells], 'op': op, 'refl': refl, 'operand': opd,
+                'order': ordv, 'family': 'rounding'}
+
+    def _round_series_case(self, rng, op, refl, form, order):
+        n, depth = rng.choice([2, 3]), rng.choice([2, 4])
+        x_div = (not refl) and op in ('Truediv', 'Floordiv', 'Mod')
+        cell_div = refl and op in ('Truediv', 'Floordiv', 'Mod')
+        rows = [[float(self._rnum(rng, 'float', cell_div)) for _ in range(depth)] for _ in range(n)]
+        if form == 'scalar':
+            opd = {'t': 'scalar', 'v': pyobs.enc(self._rnum(rng, 'any', x_div))}
+        elif form in ('vec_row', 'vec_sample'):
+            if form == 'vec_sample':
+                depth = 4 if n != 4 else 5
+                rows = [[float(self._rnum(rng, 'float', cell_div)) for _ in range(depth)] for _ in range(n)]
+            k = n if form == 'vec_row' else depth
+            opd = {'t': 'vec', 'as': rng.choice(['list', 'tuple'] + ([] if refl else ['array'])),
+                   'vs': [pyobs.enc(self._rnum(rng, 'any', x_div)) for _ in range(k)]}
+        elif form in ('col_KFloat', 'col_KInt'):
+            vs = [self._rnum(rng, 'int' if form == 'col_KInt' else 'any', x_div) for _ in range(n)]
+            opd = {'t': 'col', 'kind': form[4:], 'vs': [pyobs.enc(v) for v in vs]}
+        else:
+            opd = {'t': 'mat', 'as': 'list' if refl else rng.choice(['list', 'array']),
+                   'vss': [[pyobs.enc(float(self._rnum(rng, 'float', x_div))) for _ in range(depth)] for _ in range(n)]}
+        return {'mode': 'series', 'depth': depth, 'rows': [[pyobs.enc(v) for v in row] for row in rows], 'op': op,
+                'refl': refl, 'operand': opd, 'order': self._order(rng, n, order), 'family': 'rounding'}
+
+    def round_forms(self, refl):
+        fs = ['int', 'float', 'float', 'numeric_text', 'list', 'tuple']
+        if not refl:
+            fs += ['np_int64', 'np_float64', 'np_float32', 'col_KMixed', 'col_KFloat', 'col_KInt']
+        return fs
+
     def forms(self, kind, op, refl):
         fs = ['int', 'float', 'bool', 'numeric_text', 'list', 'tuple']
         if refl and op == 'Mod':
@@ -762,6 +908,22 @@ class C13:
             else:
                 inp['operand'] = {'t': 'scalar', 'v': pyobs.enc(-rng.randint(1, 3))}
             add(inp)
+        # values on which IEEE rounding / overflow / subnormals / signed zeros are visible: every row is judged by the
+        # IEEE-754 instance (0.1 + 0.2, 1 / 3, 2**53 + 1 as int and float, 5e-324, 1e308 * 10, inf - inf, 0.0 * inf)
+        for kind in KINDS:
+            for op in ROPS:
+                for refl in (False, True):
+                    for form in self.round_forms(refl):
+                        for _ in range(1 if tier == 'quick' else 5):
+                            if refl and form == 'numeric_text' and op == 'Mod':
+                                continue            # 'x' % col is string formatting
+                            add(self._round_case(rng, kind, op, refl, form, rng.choice(orders + ['colslice']),
+                                                 rng.choice([3, 4, 6])))
+        for op in ROPS:
+            for refl in (False, True):
+                for form in ['scalar', 'vec_row', 'vec_sample', 'mat'] + ([] if refl else ['col_KFloat', 'col_KInt']):
+                    for _ in range(2 if tier == 'quick' else 8):
+                        add(self._round_series_case(rng, op, refl, form, rng.choice(orders)))
         # SeriesColumn: scalar, per-row, per-sample, column and full-matrix operands
         for op in OPS:
             for refl in (False, True):
